@@ -79,7 +79,12 @@ if out.strip():
     print("refusing: /repo has uncommitted changes:\n" + out); sys.exit(2)
 rc, out = sh(f"git apply --check {patch} && git apply {patch}", cwd="/repo")
 if rc != 0:
-    print("patch does not apply to /repo:\n" + out); sys.exit(2)
+    # later hook commits may have touched the context lines of an older patch: retry with fuzz (the change itself is unchanged)
+    rc, out2 = sh(f"patch -p1 -F3 --no-backup-if-mismatch < {patch}", cwd="/repo")
+    meta["ran"].append("patch applied with fuzz (context lines moved by later hook commits)")
+    if rc != 0:
+        sh("git checkout -- .", cwd="/repo")
+        print("patch does not apply to /repo:\n" + out + out2); sys.exit(2)
 results = {}
 try:
     for c in checks:
